@@ -3,7 +3,8 @@ copies <worktree>/out/m<i> to /verif/seeded/<prop>-m<i>/ and records what was co
 import json, os, shutil, sys
 wt, prop, i, det, result, tests = sys.argv[1:7]
 src = os.path.join(wt, "out", "m" + i)
-dst = os.path.join("/verif/seeded", "%s-m%s" % (prop, i))
+tag = os.environ.get("SEED_TAG", "")
+dst = os.path.join("/verif/seeded", "%s-%sm%s" % (prop, tag, i))
 shutil.rmtree(dst, ignore_errors=True)
 shutil.copytree(src, dst)
 m = json.load(open(os.path.join(dst, "meta.json")))
@@ -11,7 +12,7 @@ m["breaks_property"] = prop
 m["confirmed_by_coordinator"] = {
     "demo": "exit 0 on unchanged worktree, exit 1 with patch applied (tools/confirm_seeded.sh)",
     "tests_with_patch": tests,
-    "check_run": "tools/try_patch.sh seeded/%s-m%s/patch.diff %s  (scratch copy of /repo, VERIF_REPO)" % (prop, i, prop),
+    "check_run": "tools/try_patch.sh seeded/%s-%sm%s/patch.diff %s  (scratch copy of /repo, VERIF_REPO)" % (prop, tag, i, prop),
     "detected": det, "check_result": result}
 json.dump(m, open(os.path.join(dst, "meta.json"), "w"), indent=1)
 print("kept", dst)
